@@ -21,7 +21,7 @@ def placements(tier, tag):
 
 
 def codegen_check(pid, tier, backend):
-    plan = T(tier, [("base", 220), ("spill", 110), ("objects", 110)], [("base", 2500), ("spill", 1200), ("objects", 1200)])
+    plan = T(tier, [("base", 200), ("spill", 100), ("objects", 100), ("tables", 50)], [("base", 2500), ("spill", 1200), ("objects", 1200), ("tables", 600)])
     return lockstep.lockstep_check(
         pid, tier, [backend], plan, maxsteps=T(tier, 6000, 30000), timeout=T(tier, 900, 9000),
         directed=placements(tier, pid),
@@ -131,12 +131,12 @@ def mc_heap(pid, tier, invariant, emit_histories=False):
     """design-level model: exhaustive BFS to a level bound plus random deep histories (TLC simulation) of spec/AxCutHeap.tla"""
     work = os.path.join(WORK, pid, "mc_heap")
     os.makedirs(work, exist_ok=True)
-    out = {"states": 0, "transitions": 0, "viols": [], "notes": [], "histories": []}
+    out = {"states": 0, "transitions": 0, "viols": [], "notes": [], "histories": [], "sim_histories": []}
     runs = [("bfs", dict(MaxVars=3, MaxBlocks=8, Arities="{0,1,2,4,5}", MaxLevel=T(tier, 4, 6)), None),
             ("sim", dict(MaxVars=4, MaxBlocks=14, Arities="{0,1,2,3,4,5,7}", MaxLevel=60), "num=%d" % T(tier, 3, 200))]
     for mode, consts, sim in runs:
         cfg = "SPECIFICATION Spec\nCONSTANTS\n" + "".join("  %s = %s\n" % kv for kv in consts.items()) + "  FootK = 1\n" + \
-              "INVARIANT %s\n%sCONSTRAINT Bounded\nVIEW StateView\nCHECK_DEADLOCK FALSE\n" % (invariant, "INVARIANT EmitHist\n" if (emit_histories and not sim) else "")
+              "INVARIANT %s\n%sCONSTRAINT Bounded\nVIEW StateView\nCHECK_DEADLOCK FALSE\n" % (invariant, "INVARIANT EmitHist\n" if emit_histories else "")
         cname = "MC_Heap_%s_%s.cfg" % (pid, mode)
         open(os.path.join(SPEC, cname), "w").write(cfg)
         extra = ["-depth", "45"] if sim else None
@@ -150,6 +150,10 @@ def mc_heap(pid, tier, invariant, emit_histories=False):
                     out["viols"].append({"signature": "%s:design:%s" % (pid, invariant), "replay": rp, "what": "design model violates %s (simulation)" % invariant})
                 m = re.findall(r"(\d+) states checked, (\d+) traces generated", txt)
                 out["notes"].append("simulation time box reached after %s states on %s random histories" % (m[-1] if m else ("0", "0")))
+                if emit_histories:
+                    hs = [json.loads(json.loads(l.strip())[5:]) for l in sorted({l for l in txt.splitlines() if l.startswith('"HIST ')})]
+                    pref = {json.dumps(h[:-1]) for h in hs}
+                    out["sim_histories"] = [h for h in hs if json.dumps(h) not in pref]
                 continue
             raise
         txt = open(r["out"]).read()
@@ -162,13 +166,41 @@ def mc_heap(pid, tier, invariant, emit_histories=False):
         if r["states"]:
             out["states"] += r["distinct"] or 0
             out["transitions"] += r["states"] or 0
-        if emit_histories and not sim:
+        if emit_histories:
             hs = sorted({l.strip() for l in txt.splitlines() if l.startswith('"HIST ')})
-            out["histories"] = [json.loads(json.loads(h)[5:]) for h in hs]
+            hs = [json.loads(json.loads(h)[5:]) for h in hs]
+            if sim:   # every prefix of a random behaviour is printed: keep the maximal ones
+                keys = {json.dumps(h) for h in hs}
+                pref = {json.dumps(h[:-1]) for h in hs}
+                out["sim_histories"] = [h for h in hs if json.dumps(h) not in pref]
+            else:
+                out["histories"] = hs
         m = re.search(r"(\d+) states checked, (\d+) traces generated", txt)
         if sim and m:
             out["notes"].append("simulation: %s states checked on %s random histories" % (m.group(1), m.group(2)))
     return out
+
+
+def history_directed(pid, tier, mc):
+    """linear programs for the design model's histories: a sample of the BFS histories (longest first) and every random deep
+    history, each unpadded and - for a smaller sample - behind 6 and 13 padding variables (destinations spilled on x86-64 / AArch64)"""
+    hs = mc["histories"]
+    r = rng_for(pid + "h")
+    if len(hs) > T(tier, 450, 40000):
+        longest = [h for h in hs if len(h) >= max(len(x) for x in hs)]
+        hs = r.sample(longest, min(len(longest), T(tier, 350, 30000))) + r.sample(hs, T(tier, 100, 10000))
+    directed = [("hist%d" % i, GL.history_program(h), [[]]) for i, h in enumerate(hs)]
+    padded = r.sample(hs, min(len(hs), T(tier, 120, 6000)))
+    sims = mc["sim_histories"]   # includes the unchosen successors TLC evaluated along each random behaviour: sample the deep ones
+    if sims:
+        deep = max(len(h) for h in sims)
+        sims = [h for h in sims if len(h) >= 0.6 * deep]
+        sims = r.sample(sims, min(len(sims), T(tier, 16, 600)))
+    for pad in (0, 6, 13):
+        directed += [("simhist%d_p%d" % (i, pad), GL.history_program(h, pad), [[]]) for i, h in enumerate(sims)]
+        if pad:
+            directed += [("hist_p%d_%d" % (pad, i), GL.history_program(h, pad), [[]]) for i, h in enumerate(padded)]
+    return directed
 
 
 def check_C10(tier):
@@ -189,25 +221,23 @@ def check_C10(tier):
             stats.setdefault(be, {})["loop_frontiers"] = byprog
         return viols
     plan = T(tier, [("objects", 80), ("base", 60), ("noprint", 40)], [("objects", 1500), ("base", 1500), ("noprint", 800)])
-    mc = mc_heap("C10", tier, "Footprint")
+    mc = mc_heap("C10", tier, "Footprint", emit_histories=True)
     return lockstep.lockstep_check(
-        "C10", tier, ["x86", "a64", "rv64"], plan, extra_viols=mc["viols"],
+        "C10", tier, ["x86", "a64", "rv64"], plan, extra_viols=mc["viols"], directed=history_directed("C10", tier, mc),
         extra_cov={"design_model": {"module": "spec/AxCutHeap.tla", "invariant": "Footprint (frontier <= peak reachable + 1)", "distinct_states": mc["states"],
                                     "states_generated": mc["transitions"], "notes": mc["notes"]}}, maxsteps=T(tier, 60000, 1500000), nblocks=160, timeout=T(tier, 900, 7000),
         extra=loops_extra(tier), post=same_frontier, level="model_checking",
         extra_rule="Footprint: frontier <= peak reachable blocks + 2 at every statement boundary; build-and-drop loops "
-                   "(corpus/loops) run with n = 0,1,4,16(,64,256) iterations and must end with the same frontier for n >= 4")
+                   "(corpus/loops) run with n = 0,1,4,16(,64,256) iterations and must end with the same frontier for n >= 4; "
+                   "the allocator design model's mutator histories (BFS sample and every random deep history of the TLC "
+                   "simulation) replayed as linear programs, also with 6 and 13 padding variables so that block pointers live "
+                   "in spill slots")
 
 
 def check_C09(tier):
     plan = T(tier, [("objects", 90), ("base", 70), ("spill", 30), ("noprint", 40)], [("objects", 2000), ("base", 1500), ("spill", 600), ("noprint", 800)])
     mc = mc_heap("C09", tier, "HeapConsistent", emit_histories=True)
-    hs = mc["histories"]
-    r = rng_for("C09h")
-    if len(hs) > T(tier, 450, 40000):
-        longest = [h for h in hs if len(h) >= max(len(x) for x in hs)]
-        hs = r.sample(longest, min(len(longest), T(tier, 350, 30000))) + r.sample(hs, T(tier, 100, 10000))
-    directed = [("hist%d" % i, GL.history_program(h), [[]]) for i, h in enumerate(hs)]
+    directed = history_directed("C09", tier, mc)
     return lockstep.lockstep_check(
         "C09", tier, ["x86", "a64", "rv64"], plan, extra_viols=mc["viols"], directed=directed,
         extra_cov={"design_model": {"module": "spec/AxCutHeap.tla", "invariant": "HeapConsistent (HeapInv in every reachable state)", "distinct_states": mc["states"],
@@ -215,8 +245,9 @@ def check_C09(tier):
         extra=loops_extra("quick"), level="model_checking",
         extra_rule="HeapInv (spec/HeapInv.tla) evaluated on the concrete heap words and registers at every statement marker; "
                    "MemInBounds at every instruction; plus replay of the allocator design model's mutator histories (spec/AxCutHeap.tla, "
-                   "every let/dup/drop/switch sequence up to the level bound, sampled in the quick tier) as linear programs through the "
-                   "real backends")
+                   "every let/dup/drop/switch sequence up to the level bound, sampled in the quick tier, and the random deep histories of "
+                   "the simulation) as linear programs through the real backends, also with 6 and 13 padding variables (block "
+                   "pointers in spill slots on x86-64 / AArch64)")
 
 
 def check_C11(tier):
